@@ -1,6 +1,7 @@
 package protocol
 
 import (
+	"errors"
 	"fmt"
 
 	"github.com/fxamacker/cbor/v2"
@@ -98,6 +99,11 @@ func (m *Message) UnmarshalBinary(data []byte) error {
 	deserialized := m.toMarshallable()
 	if err := cbor.Unmarshal(data, deserialized); err != nil {
 		return err
+	}
+	// cbor ignores unknown keys and accepts null, so bytes that are not a message at all can
+	// decode "successfully" into nothing; every real message names its protocol, session and sender
+	if deserialized.From == "" || deserialized.Protocol == "" || len(deserialized.SSID) == 0 {
+		return errors.New("message: missing protocol, session or sender")
 	}
 	m.SSID = deserialized.SSID
 	m.From = deserialized.From
